@@ -99,6 +99,8 @@ type Repr struct {
 	// with the hint "@share", equal arrays and maps of one environment are one Go value, reachable along several paths
 	// (bindings are graphs, not trees: a page object listed in two collections)
 	shared map[string]any
+	// arrays made under @share, for the ones that begin like them
+	sharedArrs []sharedArr
 }
 
 func (r *Repr) hint(path string) string {
@@ -133,6 +135,11 @@ type lqAcct struct {
 func (a lqAcct) Label() string { return "L:" + a.Name }
 func (a *lqAcct) Total() int   { return 2 * a.N }
 
+type sharedArr struct {
+	elems []string
+	slice []any
+}
+
 type testDrop struct{ v any }
 
 func (d testDrop) ToLiquid() any { return d.v }
@@ -150,12 +157,42 @@ func realise(v J, r *Repr, path string) (any, error) {
 		if x, ok := r.shared[string(key)]; ok {
 			return x, nil
 		}
+		// an array that is the beginning of one already made is a slice of it: same storage, shorter length (a list
+		// and its first page)
+		if k == "arr" {
+			elems := jarr(v, "v")
+			for _, prev := range r.sharedArrs {
+				if len(elems) < len(prev.elems) && len(elems) > 0 {
+					same := true
+					for i := range elems {
+						a, _ := json.Marshal(elems[i])
+						if string(a) != prev.elems[i] {
+							same = false
+							break
+						}
+					}
+					if same {
+						x := prev.slice[:len(elems)]
+						r.shared[string(key)] = x
+						return x, nil
+					}
+				}
+			}
+		}
 		x, err := realiseBase(v, r, path, "")
 		if err != nil {
 			return nil, err
 		}
 		if s, ok := x.([]any); ok && len(s) == 0 {
 			x = []any{} // (all empty slices made this way have one and the same address)
+		}
+		if s, ok := x.([]any); ok && len(s) > 0 {
+			es := make([]string, len(s))
+			for i, e := range jarr(v, "v") {
+				b, _ := json.Marshal(e)
+				es[i] = string(b)
+			}
+			r.sharedArrs = append(r.sharedArrs, sharedArr{elems: es, slice: s})
 		}
 		r.shared[string(key)] = x
 		return x, nil
